@@ -122,6 +122,46 @@ theorem blockSum_ofFn (A : Nat → Nat → α) (idx : List Nat) (d : Fin idx.len
   rw [hz, List.map_map, Fin.sum_univ_def]
   rfl
 
+theorem zipWith_map_map_self {β γ δ ε : Type} (f : γ → δ → ε) (g : β → γ) (h : β → δ) (l : List β) :
+    List.zipWith f (l.map g) (l.map h) = l.map fun x => f (g x) (h x) := by
+  induction l with
+  | nil => rfl
+  | cons a l ih => simp [ih]
+
+theorem zipWith_self_map_right {β γ ε : Type} (f : β → γ → ε) (h : β → γ) (l : List β) :
+    List.zipWith f l (l.map h) = l.map fun x => f x (h x) := by
+  induction l with
+  | nil => rfl
+  | cons a l ih => simp [ih]
+
+/-- `rbDamp` returns one acceleration per rigid-body row -/
+theorem rbDamp_length (e : ColEnv α) (br mr : Option (List Nat)) (arb out : List α) (w : α)
+    (h : rbDamp e br mr arb w = .ok out) : out.length = arb.length := by
+  unfold rbDamp at h
+  by_cases hu : e.unc = true
+  · simp only [hu, Bool.not_true, Bool.false_eq_true, if_false] at h
+    cases br with
+    | none => cases h
+    | some br =>
+      simp only at h
+      by_cases hall : (br.all fun r => e.isZero (e.B r r)) = true
+      · simp only [hall, if_true, Except.ok.injEq] at h
+        subst h; rfl
+      · simp only [hall, Bool.false_eq_true, if_false] at h
+        cases him : rbIm e br mr with
+        | error m => rw [him] at h; cases h
+        | ok im =>
+          rw [him] at h
+          simp only at h
+          by_cases hl : (im.length != br.length || br.length != arb.length) = true
+          · simp only [hl, if_true] at h; cases h
+          · simp only [hl, Bool.false_eq_true, if_false, Except.ok.injEq] at h
+            subst h
+            simp only [Bool.or_eq_true, bne_iff_ne, not_or, not_not] at hl
+            simp [hl.1, hl.2]
+  · simp only [hu, Bool.not_false, if_true, Except.ok.injEq] at h
+    subst h; rfl
+
 theorem scaleDva_one (x : Dva α) : scaleDva 1 x = x := by
   cases x; simp [scaleDva]
 
